@@ -770,7 +770,10 @@ def cgmass(m, all6=False):
            [    0.    ,  2982.2045,     0.    ],
            [    0.    ,     0.    ,  3027.8643]])
     """
-    if not ytools.mattype(m, "symmetric"):
+    # judge symmetry relative to the largest term so that the outcome
+    # does not depend on the system of units:
+    mmax = abs(np.asarray(m)).max()
+    if not ytools.mattype(m / mmax if mmax > 0 else m, "symmetric"):
         raise ValueError("mass matrix is not symmetric")
 
     mx, my, mz = np.diag(m)[:3]
